@@ -147,13 +147,13 @@ func Calibrate(testDir string) (CalibStats, error) {
 		{"01000000" + "fe01000000" + in1 + "01" + out1 + "00000000", ErrNonCanonical},
 		{"01000000" + "ff0100000000000000" + in1 + "01" + out1 + "00000000", ErrNonCanonical},
 		{"01000000" + "01" + in1 + "fd0100" + out1 + "00000000", ErrNonCanonical},
-		{"01000000" + "fe01000002", ErrSizeTooLarge},                                  // 0x02000001 inputs
-		{"01000000" + "fe00000002", ErrEndOfData},                                     // exactly MAX_SIZE inputs, no data
-		{"01000000" + "ff0000000000010000", ErrSizeTooLarge},                          // 2^40 inputs
-		{"01000000" + "0000" + "00000000", ""},                                        // dummy, flags 0: empty tx
+		{"01000000" + "fe01000002", ErrSizeTooLarge},         // 0x02000001 inputs
+		{"01000000" + "fe00000002", ErrEndOfData},            // exactly MAX_SIZE inputs, no data
+		{"01000000" + "ff0000000000010000", ErrSizeTooLarge}, // 2^40 inputs
+		{"01000000" + "0000" + "00000000", ""},               // dummy, flags 0: empty tx
 		{"01000000" + "0001" + "01" + in1 + "01" + out1 + "00" + "00000000", ErrSuperfluousWit},
 		{"01000000" + "0001" + "00" + "01" + out1 + "00000000", ErrSuperfluousWit}, // flag 1, no inputs
-		{"01000000" + "0001" + "01" + in1 + "01" + out1 + "0100" + "00000000", ""},   // one empty item: has witness
+		{"01000000" + "0001" + "01" + in1 + "01" + out1 + "0100" + "00000000", ""}, // one empty item: has witness
 		{"01000000" + "0002" + "01" + in1 + "01" + out1 + "00000000", ErrUnknownOptional},
 		{"01000000" + "0003" + "01" + in1 + "01" + out1 + "0100" + "00000000", ErrUnknownOptional},
 		{"01000000" + "0003" + "01" + in1 + "01" + out1 + "00" + "00000000", ErrSuperfluousWit},
